@@ -172,6 +172,12 @@ def _norm_decs(al, decs):
     return [next((k for k in al._raw if al._raw[k] is d), "?") for d in decs]
 
 
+def test_c15_build(SubprocSpec, line):
+    # SubprocSpec.resolve_stack() asserts that the frame three levels up is run_subproc (or a test_*
+    # function) when the alias wants a `stack` argument: give it the frame layout it expects
+    return (lambda: SubprocSpec.build(line))()
+
+
 class _Timeout(Exception):
     pass
 
@@ -247,7 +253,7 @@ def _check_table(kinds_tuple):
                 first = obs
             # SubprocSpec.build on the first and last definition order
             if oi in (0, len(_ORDERS) - 1):
-                got = _observe(lambda: SubprocSpec.build(list(line)))
+                got = _observe(lambda: test_c15_build(SubprocSpec, list(line)))
                 n_eval += 1
                 if got[0] == "ok":
                     spec = got[1]
